@@ -254,14 +254,17 @@ func runConnInner(args []string) string {
 
 	// warm-up: a first Connect call on the same Connection that fails twice and is then rejected by the validator
 	// (nothing dispatched, context still live); whatever it used up must not show in the call that follows
-	warm, warmN := false, 0
+	warm, warmN, warmOnce := false, 0, false
 	var rejectedBody *slowBody
 	rt := rtFunc(func(r *http.Request) (*http.Response, error) {
 		mu.Lock()
 		defer mu.Unlock()
 		if warm {
 			warmN++
-			if warmN <= 2 {
+			if r.Body != nil && r.Body != http.NoBody {
+				_, _ = io.ReadAll(r.Body) // the transport sends the body: it is consumed
+			}
+			if warmN <= 2 && !warmOnce {
 				return nil, errTransport
 			}
 			return &http.Response{StatusCode: 200, Header: http.Header{"X-Verif-Reject": {"0"}}, Body: io.NopCloser(strings.NewReader("")), Request: r}, nil
@@ -407,7 +410,7 @@ func runConnInner(args []string) string {
 	c := client.NewConnection(req)
 	if i := strings.Index(args[3], "+b:"); i >= 0 {
 		// Connection.Buffer with a caller-provided buffer: the same backing array serves every (re)connection
-		f := strings.Split(args[3][i+3:], ":")
+		f := strings.Split(strings.SplitN(args[3][i+3:], "+", 2)[0], ":")
 		c.Buffer(make([]byte, 0, atoi(f[0])), atoi(f[1]))
 	}
 	c.SubscribeToAll(func(e sse.Event) {
@@ -431,13 +434,24 @@ func runConnInner(args []string) string {
 	// (only where it cannot be seen otherwise: no body to rewind, no caller-set Last-Event-ID header — a retry without an
 	// ID of its own deletes that header from the connection's request —, waits of microseconds)
 	if ii, _ := strconv.ParseInt(strings.Split(args[0], ",")[0], 10, 64); args[4] != "1" && (args[2] == "none" || args[2] == "nobody") &&
-		!strings.HasPrefix(args[3], "h:") && ii > 0 && ii <= 100_000 && len(args[5])%4 == 1 {
+		!strings.HasPrefix(args[3], "h:") && !strings.Contains(args[3], "+w") && ii > 0 && ii <= 100_000 && len(args[5])%4 == 1 {
 		mu.Lock()
 		warm = true
 		mu.Unlock()
 		_ = c.Connect()
 		mu.Lock()
 		warm = false
+		mu.Unlock()
+	}
+	// `+w`: an earlier Connect on the same Connection whose only attempt the validator rejected — the call that follows
+	// starts with a reconnection: Last-Event-ID as known, the body re-obtained (the model is told: isRetry)
+	if strings.Contains(args[3], "+w") {
+		mu.Lock()
+		warm, warmOnce, warmN = true, true, 0
+		mu.Unlock()
+		_ = c.Connect()
+		mu.Lock()
+		warm, warmOnce = false, false
 		mu.Unlock()
 	}
 	done := make(chan error, 1)
